@@ -110,6 +110,11 @@ theorem append_to_empty_has_no_delimiter (n v dl : Bytes) (env : Env)
   rw [apply_get]
   rcases h with h | h <;> simp [specApply, lookIns, ruleVar, rule1, h]
 
+/-- **M1b (`apply_to_empty`).** `LayerEnv::apply_to_empty` gives every variable the value the CNB rules prescribe starting from
+an environment in which every variable is unset. -/
+theorem apply_to_empty_get (ins : List Ins) (qs : Scope) (n : Bytes) :
+    ((buildEnv ins).applyToEmpty qs).get n = specApply ins qs [] n := apply_get ins qs [] n
+
 /-- **M5 (`all` before the scope, compositionally).** Applying for a scope other than `all` is applying for `all` first and
 then applying the entries of that scope alone to the result — for every insert sequence, scope, starting environment and variable. -/
 theorem all_applies_before_scope (ins : List Ins) (qs : Scope) (hqs : qs ≠ .all) (env : Env) (n : Bytes) :
